@@ -243,4 +243,76 @@ theorem dfs_perm {don recv n} (g : G' don recv n) (recv_lt : ∀ i, i < n → re
     subperm_of_subset nodup_range (fun x hx => hall x (mem_range.mp hx))
   exact h1.antisymm h2
 
+/-! ### block structure: the order is the concatenation, over the roots in increasing index
+order, of one block per root containing exactly nodes that drain to that root -/
+
+def Reaches (recv : Nat → Nat) (x r : Nat) : Prop := ∃ k, iter recv k x = r
+
+theorem Reaches.of_recv {recv : Nat → Nat} {d s r : Nat} (h : recv d = s) (hs : Reaches recv s r) :
+    Reaches recv d r := by
+  obtain ⟨k, hk⟩ := hs
+  exact ⟨k + 1, by simp [iter, h, hk]⟩
+
+/-- everything `drain` appends reaches `r` when everything on the stack does -/
+theorem drain_ext_reaches {don recv n} (g : G' don recv n) (r : Nat) (fuel : Nat) (st out : List Nat)
+    (hst : ∀ s, s ∈ st → Reaches recv s r) :
+    ∃ ext, drain don fuel st out = out ++ ext ∧ ∀ x, x ∈ ext → Reaches recv x r ∧ recv x ≠ x := by
+  induction fuel generalizing st out with
+  | zero => exact ⟨[], by simp [drain], by simp⟩
+  | succ f ih =>
+    cases st with
+    | nil => exact ⟨[], by simp [drain], by simp⟩
+    | cons s st =>
+      simp only [drain]
+      have hs := hst s mem_cons_self
+      have hdon : ∀ d, d ∈ don s → Reaches recv d r := fun d hd => Reaches.of_recv ((g.inv d s).mp hd).1 hs
+      obtain ⟨ext, he, hext⟩ := ih ((don s).reverse ++ st) (out ++ don s) (by
+        intro x hx
+        rcases mem_append.mp hx with h | h
+        · exact hdon x (mem_reverse.mp h)
+        · exact hst x (mem_cons_of_mem _ h))
+      refine ⟨don s ++ ext, by rw [he]; simp, ?_⟩
+      intro x hx
+      rcases mem_append.mp hx with h | h
+      · have hi := (g.inv x s).mp h
+        exact ⟨hdon x h, by rw [hi.1]; exact fun e => hi.2 e.symm⟩
+      · exact hext x h
+
+/-- the fold over the roots produces one block per root -/
+theorem fold_blocks {don recv n} (g : G' don recv n) (rs : List Nat) (out : List Nat) :
+    ∃ blocks : List (List Nat),
+      rs.foldl (fun out r => drain don (n + 1) [r] (out ++ [r])) out = out ++ blocks.flatten ∧
+      blocks.length = rs.length ∧
+      ∀ i (hi : i < blocks.length) (hi' : i < rs.length),
+        (∃ ext, blocks[i] = rs[i] :: ext ∧ ∀ x, x ∈ ext → Reaches recv x rs[i] ∧ recv x ≠ x) := by
+  induction rs generalizing out with
+  | nil => exact ⟨[], by simp, rfl, by intro i hi; simp at hi⟩
+  | cons r t ih =>
+    simp only [foldl_cons]
+    obtain ⟨ext, he, hext⟩ := drain_ext_reaches g r (n + 1) [r] (out ++ [r])
+      (by intro s hs; simp at hs; subst hs; exact ⟨0, rfl⟩)
+    obtain ⟨bs, hb1, hb2, hb3⟩ := ih (drain don (n + 1) [r] (out ++ [r]))
+    refine ⟨(r :: ext) :: bs, ?_, by simp [hb2], ?_⟩
+    · rw [hb1, he]; simp
+    · intro i hi hi'
+      cases i with
+      | zero =>
+        simp only [getElem_cons_zero]
+        exact ⟨ext, rfl, hext⟩
+      | succ j =>
+        simp only [getElem_cons_succ]
+        exact hb3 j (by simpa using hi) (by simpa using hi')
+
+/-- **dfs_bottomup_valid, contiguity**: the order is `blocks.flatten` with one block per root, in
+the order of the roots, every block starting with its root and containing only nodes that drain
+to it. -/
+theorem dfs_blocks {don recv n} (g : G' don recv n) :
+    ∃ blocks : List (List Nat),
+      dfs don recv n (n + 1) = blocks.flatten ∧ blocks.length = (roots recv n).length ∧
+      ∀ i (hi : i < blocks.length) (hi' : i < (roots recv n).length),
+        (∃ ext, blocks[i] = (roots recv n)[i] :: ext ∧
+          ∀ x, x ∈ ext → Reaches recv x (roots recv n)[i] ∧ recv x ≠ x) := by
+  obtain ⟨bs, h1, h2, h3⟩ := fold_blocks g (roots recv n) []
+  exact ⟨bs, by simpa [dfs] using h1, h2, h3⟩
+
 end Proto.Dfs
